@@ -278,62 +278,66 @@ theorem compiled_constants_no_free (cbc : Compile.Bytecode) :
   constants_no_free cbc
 
 /-- bytecodes returned by the compile model (optimizer off, no imports), with the parser's file
-    set `fs`; the two size conditions say that every length fits Go's `int` -/
+    set `fs`; side conditions: every length and count fits Go's `int` -/
 def CompilerOutput (C : Ctx) (builtins : List (String × Nat)) (disabled : List String) (fs : Option FileSet)
     (bc : BC) : Prop :=
   ∃ file cbc, Compile.compileFile builtins disabled file = .ok cbc ∧ bc = toEnc fs cbc ∧
-    (encodeBytecodeBody C bc).length < 2 ^ 63 ∧ (encodeBytecodeBody C (normBC bc)).length < 2 ^ 63
+    SmallCounts cbc ∧ (encodeBytecodeBody C bc).length < 2 ^ 63
 
-/-- `C04_full` for compiler output of the modelled language: for every script the compile model
-    accepts, the compiled bytecode, encoded and decoded (and encoded and decoded once more), runs
-    to the same outcome in the VM model, for all globals and arguments. -/
-theorem C04_full_compiled (F : FloatOps) (H : Host) (C : Ctx) (conv : BC → Res BC) (mods : Mods)
-    (builtins : List (String × Nat)) (disabled : List String) (fs : Option FileSet) :
-    C04_full C conv mods (CompilerOutput C builtins disabled fs) (run F H) := by
-  apply C04_vm
-  · rintro bc ⟨file, cbc, _, rfl, hs, _⟩
-    refine ⟨?_, hs⟩
+/-- compiler output is well-formed, so the round trip returns *exactly* the bytecode that was
+    encoded: instructions, constants, source maps, file set, counts — nothing is normalised away
+    (`Free` is nil to begin with) -/
+theorem compiled_roundtrip_exact (C : Ctx) (conv : BC → Res BC) (mods : Mods) (fs : Option FileSet)
+    (cbc : Compile.Bytecode) (hs : SmallCounts cbc)
+    (hsmall : (encodeBytecodeBody C (toEnc fs cbc)).length < 2 ^ 63) :
+    (decodeBytecode C conv mods (encodeBytecode C (toEnc fs cbc))).res = .ok (toEnc fs cbc) := by
+  have hE : EncodableBC C (toEnc fs cbc) := by
+    refine ⟨?_, hsmall⟩
     intro cs h
     simp only [toEnc, Option.some.injEq] at h
     subst h
     exact consts_encodable C _
-  · rintro bc ⟨file, cbc, _, rfl, _, _⟩
-    exact toEnc_FixOK mods fs cbc
-  · rintro bc bc' ⟨file, cbc, _, rfl, _, hs'⟩ hfx
-    have hid : fixObjects mods (normBC (toEnc fs cbc)) = .ok (normBC (toEnc fs cbc)) := by
-      apply fixObjects_id
-      intro cs h c hc
-      simp only [normBC, toEnc, Option.map_some, Option.some.injEq] at h
-      subst h
-      have : ∀ (l : List Compile.Const) (c : Obj), c ∈ normList (l.map objOfConst) → NotModule c := by
-        intro l
-        induction l with
-        | nil => intro c hc; simp [normList] at hc
-        | cons k rest ih =>
-          intro c hc
-          simp only [List.map_cons, normList, List.mem_cons] at hc
-          rcases hc with rfl | hc
-          · exact objOfConst_notModule k
-          · exact ih c hc
-      exact this _ c hc
-    rw [hid] at hfx
-    injection hfx with hfx
-    subst hfx
-    refine ⟨?_, hs'⟩
+  rw [bytecode_roundtrip_default_fuel C conv mods _ hE, normBC_of_WF _ (toEnc_WF fs cbc hs)]
+  apply fixObjects_id
+  intro cs h c hc
+  simp only [toEnc, Option.some.injEq] at h
+  subst h
+  obtain ⟨k, _, rfl⟩ := List.mem_map.mp hc
+  have := objOfConst_notModule k
+  rwa [norm_of_WF _ (objOfConst_WF k (fun f hf => hs.2 k (by assumption) f hf))] at this
+
+/-- every bytecode of the shape the compiler produces without imports — constants are scalars
+    and compiled functions without free variables, a main function — whether or not the optimizer
+    produced it -/
+def CompilerShaped (C : Ctx) (fs : Option FileSet) (bc : BC) : Prop :=
+  ∃ cbc : Compile.Bytecode, bc = toEnc fs cbc ∧ SmallCounts cbc ∧ (encodeBytecodeBody C bc).length < 2 ^ 63
+
+theorem C04_full_shaped (F : FloatOps) (H : Host) (C : Ctx) (conv : BC → Res BC) (mods : Mods) (fs : Option FileSet) :
+    C04_full C conv mods (CompilerShaped C fs) (run F H) := by
+  rintro bc ⟨cbc, rfl, hs, hsmall⟩
+  have hrt := compiled_roundtrip_exact C conv mods fs cbc hs hsmall
+  have hE : EncodableBC C (toEnc fs cbc) := by
+    refine ⟨?_, hsmall⟩
     intro cs h
-    simp only [normBC, toEnc, Option.map_some, Option.some.injEq] at h
+    simp only [toEnc, Option.some.injEq] at h
     subst h
-    have : ∀ l : List Compile.Const, EncodableL C (normList (l.map objOfConst)) := by
-      intro l
-      induction l with
-      | nil => simp [normList, EncodableL]
-      | cons k rest ih =>
-        simp only [List.map_cons, normList, EncodableL]
-        refine ⟨?_, ih⟩
-        cases k with
-        | val v => cases v <;> simp [objOfConst, objOfCVal, norm, Encodable]
-        | fn g => simp [objOfConst, norm, Encodable]
-    exact this _
+    exact consts_encodable C _
+  have hfx : fixObjects mods (normBC (toEnc fs cbc)) = .ok (toEnc fs cbc) := by
+    rw [← bytecode_roundtrip_default_fuel C conv mods _ hE]; exact hrt
+  refine ⟨toEnc fs cbc, ?_, fun _ => rfl, toEnc fs cbc, ?_, fun _ => rfl⟩
+  · intro fuel hf
+    rw [rt_bytecode C conv mods _ fuel hf hE, hfx]
+  · intro fuel hf
+    rw [rt_bytecode C conv mods _ fuel hf hE, hfx]
+
+/-- `C04_full` for compiler output of the modelled language: for every script the compile model
+    accepts, the compiled bytecode, encoded and decoded (and encoded and decoded once more), runs
+    to the same outcome and final state in the VM model, for all globals and arguments. -/
+theorem C04_full_compiled (F : FloatOps) (H : Host) (C : Ctx) (conv : BC → Res BC) (mods : Mods)
+    (builtins : List (String × Nat)) (disabled : List String) (fs : Option FileSet) :
+    C04_full C conv mods (CompilerOutput C builtins disabled fs) (run F H) := by
+  rintro bc ⟨file, cbc, _, hbc, hs, hsmall⟩
+  exact C04_full_shaped F H C conv mods fs bc ⟨cbc, hbc, hs, hsmall⟩
 
 /-! ### positions (C16): the decoded bytecode reports the same error positions -/
 
@@ -423,17 +427,13 @@ theorem emptyProg : Compile.compileFile [] [] [] = .ok { main := emptyMain, cons
 /-- `CompilerOutput` is inhabited: the bytecode of the empty script meets every side condition of
     `C04_full_compiled` -/
 example : CompilerOutput ctx0 [] [] none (toEnc none { main := emptyMain, constants := #[] }) := by
-  have hnorm : normBC (toEnc none { main := emptyMain, constants := #[] }) =
-      toEnc none { main := emptyMain, constants := #[] } := by
-    simp [normBC, toEnc, normCF, cfOfCFn, emptyMain, normList, mapOfList, mapSet]
   have hsmall : (encodeBytecodeBody ctx0 (toEnc none { main := emptyMain, constants := #[] })).length < 2 ^ 63 := by
     have h := encodeCF_length_le (cfOfCFn emptyMain) 2 1 (by intro i hi; simp [cfOfCFn, emptyMain] at hi; subst hi; simp)
-      (by intro sm hs; simp [cfOfCFn, emptyMain] at hs; subst hs; simp) (by decide)
+      (by intro sm hs; simp [cfOfCFn, emptyMain, mapOfList, mapSet] at hs; subst hs; simp) (by decide)
     simp only [encodeBytecodeBody, toEnc, encodeObject]
     simp
     omega
-  refine ⟨[], _, emptyProg, rfl, hsmall, ?_⟩
-  rw [hnorm]; exact hsmall
+  exact ⟨[], _, emptyProg, rfl, ⟨⟨by decide, by decide⟩, by intro c hc; simp at hc⟩, hsmall⟩
 
 /-- the hypotheses of `C04_roundtrip_run` with a module constant are satisfiable (`FixOK_module`) -/
 example : FixOK (fun n => if n = [0x6d] then some [([0x66], .function [0x66])] else none)
@@ -446,7 +446,7 @@ example : FixOK (fun n => if n = [0x6d] then some [([0x66], .function [0x66])] e
     · left; exact ⟨rfl, rfl⟩)
 
 /-- a call stack meeting the hypotheses of `trace_positions_equal` -/
-example : ∀ sm, (cfOfCFn emptyMain).sourceMap = some sm → (keys sm).Nodup := by
-  intro sm h; simp [cfOfCFn, emptyMain] at h; subst h; decide
+example : ∀ sm, (cfOfCFn emptyMain).sourceMap = some sm → (keys sm).Nodup :=
+  (cfOfCFn_WF emptyMain ⟨by decide, by decide⟩).smKeys
 
 end UgoVerif.Props.C04
